@@ -21,7 +21,9 @@ CONSTANTS Limit,       \* the limit set by `timeout = N`, in ticks
           ShortDur,    \* how long a "short" child runs (< Limit)
           LongDur,     \* how long a "long" / "stubborn" child runs (> Limit)
           Places,      \* phases in which the program is used: subset of {"setup","act","ba","assert","cleanup"}
-          Histories    \* subset of the timeout histories below
+          Histories,   \* subset of the timeout histories below
+          Deviations   \* {"CapturedAtDeclaration"}: sharpness control - the limit is the one in force where the
+                       \* instruction that names the program stands, not where the process starts ({} in a check)
 
 NoLimit == 1000
 \* where the timeout instructions are, relative to the use, and what is in force at the use
@@ -73,7 +75,11 @@ AtUseStep ==
 
 Start == /\ AtUseStep /\ proc = "notstarted"
          /\ proc' = "running" /\ clock' = 0 /\ UNCHANGED <<vars, total>> /\ Frame
-Over == LimitAtUse(hist) # NoLimit /\ clock > LimitAtUse(hist)
+\* the limit the MACHINE applies (the properties speak of LimitAtUse)
+MachineLimit(h) == IF "CapturedAtDeclaration" \in Deviations /\ h = "decl-then-set" THEN NoLimit
+                   ELSE IF "CapturedAtDeclaration" \in Deviations /\ h = "set-decl-none" THEN Limit
+                   ELSE LimitAtUse(h)
+Over == MachineLimit(hist) # NoLimit /\ clock > MachineLimit(hist)
 Tick == /\ proc = "running" /\ ~Over /\ clock < Dur(child)
         /\ clock' = clock + 1 /\ total' = total + 1 /\ UNCHANGED <<vars, proc>> /\ Frame
 ChildExit == /\ proc = "running" /\ ~Over /\ clock = Dur(child)
